@@ -500,3 +500,32 @@ fn c09_mixed_sub_rem_operand_order() {
     kani::cover!(v == 1 && i == 5);
     core::mem::forget((r1, r2, r3, r4));
 }
+
+fn left_vv(a: BigInt, _b: BigInt) -> BigInt {
+    a
+}
+
+//@ tier: quick
+//@ funcs: <Num as Sub>::sub (Int, Int), <Num as Add>::add (Int, Int), num::int_or_big
+//@ bounds: all isize pairs whose difference / sum leaves the isize range (the promoted case)
+//@ assume: <BigInt as Sub<BigInt>>::sub and <BigInt as Add<BigInt>>::add stubbed to return their LEFT operand (num-bigint cannot be executed)
+//@ asserts: when Int - Int (Int + Int) is promoted, num-bigint receives (x, y) in source order: the stubbed result is x -- so an overflowing x - y is not computed as y - x
+#[kani::proof]
+#[kani::unwind(8)]
+#[kani::stub(<BigInt as core::ops::Sub<BigInt>>::sub, left_vv)]
+#[kani::stub(<BigInt as core::ops::Add<BigInt>>::add, left_vv)]
+fn c09_promoted_sub_add_operand_order() {
+    let (x, y): (isize, isize) = (kani::any(), kani::any());
+    let r = Num::Int(x) - Num::Int(y);
+    if let Num::BigInt(b) = &r {
+        assert!(b.to_i128() == Some(x as i128));
+    }
+    let s = Num::Int(x) + Num::Int(y);
+    if let Num::BigInt(b) = &s {
+        assert!(b.to_i128() == Some(x as i128));
+    }
+    kani::cover!(matches!(r, Num::BigInt(_)) && x < 0);
+    kani::cover!(matches!(r, Num::BigInt(_)) && x >= 0);
+    kani::cover!(matches!(s, Num::BigInt(_)));
+    core::mem::forget((r, s));
+}
